@@ -11,13 +11,12 @@ TClauses(c) ==
       ok == LexOK(ts)
       n == IF ok THEN Len(ts) ELSE Len(ts) - 1
       toks == [j \in 1..n |-> [t |-> ts[j].t, v |-> ts[j].v]]
-      experimental == \E j \in 1..n : ts[j].t \in {"branch", "BININT"}
-      synbad == ~ok \/ (~experimental /\ Outcome(toks).v = "syntax")
+      synbad == ~ok \/ Outcome(toks).v = "syntax"
   IN F("terminates", c.parse.cls = "timeout" \/ c.run.cls = "timeout")
      \cup F("error_type", c.parse.cls \notin (Allowed \cup {"timeout"}) \/ c.run.cls \notin (Allowed \cup {"timeout"}))
      \cup F("syntax_is_parse_error", synbad /\ (c.parse.cls # "parse_error" \/ c.run.cls # "parse_error"))
      \cup F("has_position", (c.parse.cls = "parse_error" /\ ~c.parse.haspos) \/ (c.run.cls = "parse_error" /\ ~c.run.haspos))
-     \cup F("wellformed_not_syntax_error", ~synbad /\ ~experimental /\ Outcome(toks).v = "ok" /\ c.parse.cls = "parse_error")
+     \cup F("wellformed_not_syntax_error", ~synbad /\ Outcome(toks).v = "ok" /\ c.parse.cls = "parse_error")
 VARIABLE i
 Init == i = 1
 Case == /\ i <= Len(Cases)
